@@ -244,6 +244,123 @@ theorem builtin_fit_weights_pos (b : Builtin) (rows : List Row)
   simp only [ptOf, hrow, Option.getD_some]
   exact hwpos
 
+/-! ## weights, entry by entry -/
+
+/-- `weights_from_weighting` (masks, `nanmin`, replacement, then the formula on the whole array) is the
+entry-by-entry specification: NaN everywhere for an all-NaN array, 1 everywhere for an all-zero array and
+for `Equal`; otherwise NaN stays NaN, a non-zero value `q` gets `w(q)`, and a zero gets `w(m)` for the
+smallest non-zero finite entry `m` — NaN if there is no such entry. -/
+theorem weights_are_pointwise (xs : List V) (k : Kind) : weightsFromWeighting xs k = specWeights xs k :=
+  weightsFromWeighting_eq_spec xs k
+
+/-- `leastNonzero` is what its name says -/
+theorem leastNonzero_is_least (xs : List V) :
+    (∀ m, leastNonzero xs = some m → some m ∈ xs ∧ m ≠ 0 ∧ ∀ q : Rat, some q ∈ xs → q ≠ 0 → m ≤ q) ∧
+    (leastNonzero xs = none ↔ ¬ ∃ q : Rat, some q ∈ xs ∧ q ≠ 0) :=
+  ⟨leastNonzero_some xs, leastNonzero_none_iff xs⟩
+
+/-- The exact extent of "a zero concentration never produces an infinite or NaN weight": for a weighting
+other than `Equal`, the weight of a zero entry is NaN exactly when the array holds nothing but zeros and
+NaNs, with at least one NaN (`Calibration.from_points([[0, 1], [nan, 2]], weights="1/x").weights` is
+`[nan, nan]`).  It is never infinite: no branch divides by zero. -/
+theorem zero_weight_nan_iff (xs : List V) (k : Kind) (i : Nat) (hi : xs[i]? = some (some 0)) (hk : k ≠ .equal) :
+    (weightsFromWeighting xs k)[i]? = some none ↔
+      (¬ ∃ q : Rat, some q ∈ xs ∧ q ≠ 0) ∧ ∃ j : Nat, xs[j]? = some none := by
+  rw [weights_are_pointwise]
+  unfold specWeights
+  rw [List.getElem?_map, hi]
+  simp only [Option.map_some, Option.some.injEq]
+  have hmem : (some 0 : V) ∈ xs := List.mem_of_getElem? hi
+  have hnotnan : xs.all (·.isNone) = false := by
+    rw [List.all_eq_false]; exact ⟨some 0, hmem, by simp⟩
+  unfold specWeight
+  simp only [hnotnan, Bool.false_eq_true, if_false, if_neg hk, ne_eq, not_true_eq_false]
+  by_cases hz : xs.all (fun u => u == some 0) = true
+  · simp only [hz, if_true]
+    constructor
+    · intro h; simp at h
+    · rintro ⟨_, j, hj⟩
+      have := List.all_eq_true.1 hz none (List.mem_of_getElem? hj)
+      simp at this
+  · simp only [hz, Bool.false_eq_true, if_false, Option.map_eq_none_iff]
+    rw [leastNonzero_none_iff]
+    constructor
+    · intro h
+      refine ⟨h, ?_⟩
+      have hz' : xs.all (fun u => u == some 0) = false := by simpa using hz
+      rw [List.all_eq_false] at hz'
+      obtain ⟨v, hv, hvz⟩ := hz'
+      cases v with
+      | none => exact List.getElem?_of_mem hv
+      | some q =>
+        exfalso
+        apply h
+        refine ⟨q, hv, fun hq => hvz ?_⟩
+        subst hq; rfl
+    · exact fun h => h.1
+
+/-- …so: whenever some entry is finite and not zero (`hasNonzero`; implied by two distinct concentrations,
+`two_levels_hasNonzero`), every finite entry — zeros included — has a finite weight -/
+theorem weights_finite_of_nonzero (xs : List V) (k : Kind) (h : hasNonzero xs = true) :
+    finiteAtFinite xs (weightsFromWeighting xs k) = true := by
+  have hnz : ∃ q : Rat, some q ∈ xs ∧ q ≠ 0 := by
+    unfold hasNonzero at h
+    obtain ⟨v, hv, hp⟩ := List.any_eq_true.1 h
+    cases v with
+    | none => simp at hp
+    | some q => exact ⟨q, hv, by simpa using hp⟩
+  obtain ⟨hlen, m, _, _, _, hall⟩ := weights_finite xs k hnz
+  unfold finiteAtFinite
+  simp only [Bool.and_eq_true, beq_iff_eq, hlen, true_and]
+  rw [List.all_eq_true]
+  intro p hp
+  obtain ⟨i, hi, hget⟩ := List.mem_iff_getElem.1 hp
+  simp only [List.getElem_zip] at hget
+  simp only [List.length_zip, hlen, Nat.min_self] at hi
+  cases hx : xs[i]'hi with
+  | none => rw [← hget]; simp [hx]
+  | some q =>
+    have hxi : xs[i]? = some (some q) := by rw [List.getElem?_eq_getElem hi, hx]
+    obtain ⟨w, hw, _⟩ := hall i q hxi
+    have hlt : i < (weightsFromWeighting xs k).length := by rw [hlen]; exact hi
+    rw [List.getElem?_eq_getElem hlt] at hw
+    simp only [Option.some.injEq] at hw
+    rw [← hget]
+    simp [hw]
+
+/-- two finite entries with different values: one of them is not zero -/
+theorem two_levels_hasNonzero (xs : List V) (p q : Rat) (hp : some p ∈ xs) (hq : some q ∈ xs) (hne : p ≠ q) :
+    hasNonzero xs = true := by
+  unfold hasNonzero
+  rw [List.any_eq_true]
+  by_cases h0 : p = 0
+  · exact ⟨some q, hq, by simpa using fun hh => hne (h0.trans hh.symm)⟩
+  · exact ⟨some p, hp, by simpa using h0⟩
+
+/-! ## `error` -/
+
+/-- the returned `error`² (computed from the fitted line's residuals) is the residual variance about the
+textbook line written with raw sums, `(Σy² − 2gΣxy − 2cΣy + g²Σx² + 2gcΣx + n c²)/(n − 2)`; 0 for n ≤ 2 -/
+theorem err2_is_residual_variance (l : List Pt) (hD : D l ≠ 0) (hS : Sw l ≠ 0) : err2 l = specErr2 l := by
+  obtain ⟨hg, hc⟩ := fit_is_centred_form l hD hS
+  unfold err2 specErr2
+  simp only
+  rw [← hg, ← hc]
+  split
+  · rw [resid_sq_expand]
+  · rfl
+
+/-- it is a variance: not negative (so `error` is a real number) -/
+theorem err2_nonneg (l : List Pt) : 0 ≤ err2 l := by
+  unfold err2
+  split
+  · next h =>
+    apply div_nonneg
+    · exact S_nonneg l (fun p _ => sq_nonneg _)
+    · have : (2 : Rat) < (l.length : Rat) := by exact_mod_cast h
+      linarith
+  · exact le_refl _
+
 /-! ## non-vacuity -/
 
 def exRows : List Row :=
@@ -261,6 +378,24 @@ example : weightsFromWeighting [some 0, none, some (1/2), some 2] .inv = [some 2
   decide +kernel
 -- the corner outside the hypothesis: only zeros and NaNs → the zero gets a NaN weight
 example : weightsFromWeighting [some 0, none] .inv = [none, none] := by decide +kernel
+example : ([some 0, none] : List V)[0]? = some (some 0) ∧ Kind.inv ≠ Kind.equal ∧
+    (¬ ∃ q : Rat, some q ∈ ([some 0, none] : List V) ∧ q ≠ 0) ∧ ∃ j : Nat, ([some 0, none] : List V)[j]? = some none := by
+  refine ⟨rfl, by decide, ?_, 1, rfl⟩
+  rintro ⟨q, hq, hq0⟩
+  simp only [List.mem_cons, Option.some.injEq, List.not_mem_nil, or_false] at hq
+  rcases hq with hq | hq
+  · exact hq0 hq
+  · simp at hq
+example : hasNonzero [some 0, none, some (1/2), some 2] = true ∧ hasNonzero [some 0, none] = false ∧
+    finiteAtFinite [some 0, none] (weightsFromWeighting [some 0, none] .inv) = false ∧
+    leastNonzero [some 0, none, some 2, some (1/2)] = some (1/2) := by decide +kernel
+example : specWeights [some 0, none, some (1/2), some 2] .inv2 = [some 4, none, some 4, some (1/4)] := by decide +kernel
+-- err2: four points, 1/x weights
+example : D exPts ≠ 0 ∧ Sw exPts ≠ 0 ∧ err2 exPts = specErr2 exPts := by decide +kernel
+def exPts4 : List Pt := fitPts (.builtin ⟨false, .equal⟩)
+  [⟨some 0, some 1, none⟩, ⟨some 1, some 3, none⟩, ⟨some 2, some 4, none⟩, ⟨some 3, some 8, none⟩]
+example : exPts4.length = 4 ∧ D exPts4 ≠ 0 ∧ Sw exPts4 ≠ 0 ∧ err2 exPts4 = specErr2 exPts4 ∧ err2 exPts4 ≠ 0 := by
+  decide +kernel
 -- few_points_identity / fit_nan_interleave
 example : (usableRows [⟨some 1, none, none⟩, ⟨some 2, some 3, none⟩]).length < 2 := by decide
 example : (⟨some (1/2), none, some 2⟩ : Row).x = none ∨ (⟨some (1/2), none, some 2⟩ : Row).y = none := Or.inr rfl
